@@ -35,8 +35,11 @@ structure St where
   w : World
   caps : List Nat
   dead : Bool := false
+  /-- (track sraw) detached slices whose bytes some iovec borrows un-anchored (`push_sraw`): the caller
+  can no longer move or mutate them (the borrow checker's rule; the harness keeps the same list) -/
+  pinned : List Nat := []
 
-def St.init : St := ⟨World.init prodPolicy prodTuning, [], false⟩
+def St.init : St := ⟨World.init prodPolicy prodTuning, [], false, []⟩
 
 /-- record capacities of chunks allocated since the last call (from caches that name them) -/
 def St.noteCaps (s : St) : St :=
@@ -437,8 +440,57 @@ def stepTraits (s : St) (ws : List String) : Option (St × List String) :=
     | _, _ => bad
   | _ => none
 
+/-! ### Track sraw: RAW pushes of arena-resident bytes
+
+`push_sraw v<i> s<k>` = `iov.push(aslice.slice())`, `push_sraw_borrowed v<i> s<k>` =
+`iov.push_borrowed(aslice.slice())`: the bytes of the detached anchored slice `s<k>` go in as a plain
+borrowed slice, the `AnchoredSlice` object stays where it is (handle `s<k>` stays live and keeps its
+chunk in the derived live set through its own anchor; the iovec gets no anchor).  The model is the
+EXISTING `World.push` / `World.pushBorrowed` applied to the slice `(chunk c, off, len)` read from
+`w.aslices[k]` - what `WOp.pushAt` / `WOp.pushBorrowedAt` do for a caller buffer, with a chunk region.
+
+This is a DRIVER-level op, not a `WOp` constructor (a constructor would force every per-op theorem of
+C03W / C04W / C05 / C10 / C20W to be re-proved, and `C20W.reachable_base` - no detached slice over a
+pending range - to be restated): histories that contain these words are COMPARED with the real crate
+(correspondence + direct oracles), not covered by the `List WOp` theorems.  No new theorem.
+
+Borrow discipline: after a raw push `s<k>` is borrowed for the iovec's lifetime parameter, so the ops
+that move or mutate it no longer type-check in Rust; both sides answer `bad-op` for them
+(`harness/src/fam_iovec/sraw.rs`: `sraw_refuses`). -/
+
+/-- the detached slice an op word would move or mutate -/
+def movesSlice (ws : List String) : Option Nat :=
+  match ws with
+  | ["push_aslice", _, t] => handle 's' t
+  | [op, t, _] =>
+    if op = "s_skip" || op = "s_dropsuf" || op = "s_split" || op = "s_clone_from" then handle 's' t else none
+  | [op, t] => if op = "s_take" || op = "s_drop" then handle 's' t else none
+  | _ => none
+
+def stepSraw (s : St) (ws : List String) : Option (St × List String) :=
+  match movesSlice ws with
+  | some k => if s.pinned.contains k then some (s, ["bad-op"]) else none
+  | none =>
+    match ws with
+    | [op, v, t] =>
+      if !(op = "push_sraw" || op = "push_sraw_borrowed") then none else
+      match handle 'v' v, handle 's' t with
+      | some i, some k =>
+        match s.w.iov i, s.w.aslice k with
+        | some _, some a =>
+          let s1 := { s with pinned := if s.pinned.contains k then s.pinned else k :: s.pinned }
+          match (if op = "push_sraw" then s.w.push i a.slice else s.w.pushBorrowed i a.slice) with
+          | some w' => some (ok s1 w' [] (some i))
+          | none => some (panic s)
+        | _, _ => some (s, ["bad-op"])
+      | _, _ => some (s, ["bad-op"])
+    | _ => none
+
 def step (s : St) (ws : List String) : St × List String :=
   if s.dead then (s, []) else
+  match stepSraw s ws with
+  | some r => r
+  | none =>
   match stepTraits s ws with
   | some r => r
   | none =>
